@@ -19,34 +19,57 @@ Proof.
   pose proof (read_at_len_file f off 8). lia.
 Qed.
 
-Lemma rec_fold_final_in_file f evs : forall a,
+(* every commit frame the recovery remembers lies inside the file, and its CRC
+   range starts at or before it (at 0 or right behind an earlier commit frame) *)
+Definition commit_in_file (f : bytes) (c : commit_info) : Prop :=
+  c_crc_start c <= c_off c /\ c_off c + 8 <= len f.
+
+Lemma rec_fold_commits_in_file f evs : forall a off,
   Forall (fun e => fe_off e + 8 <= len f) evs ->
-  (forall fc, ra_final a = Some fc -> c_off fc + 8 <= len f) ->
-  forall fc, ra_final (fold_left rec_step evs a) = Some fc -> c_off fc + 8 <= len f.
+  scan_sorted off evs ->
+  Forall (commit_in_file f) (ra_commits a) ->
+  Forall (fun c => c_off c + 8 <= off) (ra_commits a) ->
+  Forall (commit_in_file f) (ra_commits (fold_left rec_step evs a)).
 Proof.
-  induction evs as [|e r IH]; intros a He Ha fc H; [apply Ha; exact H|].
-  inversion He as [|? ? He0 Her]; subst. cbn [fold_left] in H.
-  apply (IH (rec_step a e)); [exact Her| |exact H].
-  intros fc' H'. unfold rec_step in H'.
-  destruct (fe_typ e =? FrameEntry); [apply Ha; exact H'|].
-  destruct (fe_typ e =? FrameIndex); [apply Ha; exact H'|].
-  cbn [ra_final] in H'. inversion H'; subst. cbn [c_off]. exact He0.
+  induction evs as [|e r IH]; intros a off He Hs Ha Hb; [exact Ha|].
+  inversion He as [|? ? He0 Her]; subst. cbn [scan_sorted] in Hs. destruct Hs as [Hoff Hs].
+  cbn [fold_left].
+  assert (Hb' : Forall (fun c => c_off c + 8 <= fe_off e + 8) (ra_commits a)).
+  { eapply Forall_impl; [|exact Hb]. intros c Hc. cbn beta in Hc. lia. }
+  apply (IH (rec_step a e) (fe_off e + 8) Her Hs); unfold rec_step;
+    (destruct (fe_typ e =? FrameEntry); [cbn [ra_commits]; try exact Ha; exact Hb'|]);
+    (destruct (fe_typ e =? FrameIndex); [cbn [ra_commits]; try exact Ha; exact Hb'|]);
+    cbn [ra_commits].
+  - constructor; [|exact Ha]. unfold commit_in_file. cbn [c_off c_crc_start]. split; [|exact He0].
+    destruct (ra_commits a) as [|p ?]; [lia|]. inversion Hb; subst. lia.
+  - constructor; [cbn [c_off]; lia|exact Hb'].
 Qed.
 
-(* recoverTail's only data-dependent allocation, the CRC batch buffer of
-   c_off - c_crc_start bytes, never exceeds the file length *)
-Theorem recover_alloc_bound f :
-  match ra_final (rec_fold (scan f)) with
-  | Some fc => c_off fc - c_crc_start fc <= len f /\
-               len (read_at f (c_crc_start fc) (c_off fc - c_crc_start fc)) <= len f
-  | None => True
-  end.
+Lemma read_at_inside f off n : off + n <= len f -> len (read_at f off n) = n.
 Proof.
-  destruct (ra_final (rec_fold (scan f))) as [fc|] eqn:E; [|exact I].
-  assert (H : c_off fc + 8 <= len f).
-  { unfold rec_fold in E. eapply rec_fold_final_in_file; [apply scan_from_in_file| |exact E].
-    intros fc' H'. discriminate. }
-  split; [lia|]. pose proof (read_at_len f (c_crc_start fc) (c_off fc - c_crc_start fc)). lia.
+  intros H. unfold read_at. destruct (len f <=? off) eqn:E.
+  - apply N.leb_le in E. cbn. lia.
+  - apply N.leb_gt in E. unfold sub, len in *. rewrite firstn_length, skipn_length. lia.
+Qed.
+
+(* recoverTail's only data-dependent allocation is the CRC batch buffer, sized
+   to the largest c_off - c_crc_start among the commit frames it walks back
+   over.  For EVERY commit frame of the scan that size is at most the file
+   length, and the ReadAt that fills the buffer is never short (so the error
+   path of that ReadAt is dead code for a file that does not shrink). *)
+Theorem recover_alloc_bound f :
+  Forall (fun c => c_off c - c_crc_start c <= len f /\
+                   len (read_at f (c_crc_start c) (c_off c - c_crc_start c)) = c_off c - c_crc_start c)
+         (ra_commits (rec_fold (scan f))).
+Proof.
+  assert (H : Forall (commit_in_file f) (ra_commits (rec_fold (scan f)))).
+  { unfold rec_fold. apply (rec_fold_commits_in_file f (scan f) _ 32).
+    - apply scan_from_in_file.
+    - apply scan_from_sorted.
+    - constructor.
+    - constructor. }
+  eapply Forall_impl; [|exact H]. intros c [H1 H2]. split; [lia|].
+  apply read_at_inside. lia.
 Qed.
 
 (* recover_state is a total function of the bytes (by typing); moreover it only
@@ -55,10 +78,7 @@ Theorem recover_total info f :
   validate_file_header (scanned_header f) info = true -> exists w, recover_state info f = Some w.
 Proof.
   intros H. unfold recover_state. rewrite H.
-  destruct (ra_final (rec_fold (scan f))) as [fc|]; [|eexists; reflexivity].
-  destruct (Nat.ltb _ _); [eexists; reflexivity|].
-  destruct (_ =? _); [eexists; reflexivity|].
-  destruct (ra_prev (rec_fold (scan f))); eexists; reflexivity.
+  destruct (find_good f (ra_commits (rec_fold (scan f)))); eexists; reflexivity.
 Qed.
 
 (* DumpSegment: every buffer it fills, hence every payload it emits, is at most
